@@ -302,7 +302,7 @@ def repro_cmd(case):
 def run_case(case, cap):
     t0 = time.time()
     r = ssm.run_ssm(case["st"], case["eq"], case["wc"], case["opts"], case["seed"], case["sanitize"],
-                    start=case.get("start"), timeout=cap, spelling=case.get("spelling", "int"))
+                    start=case.get("start"), timeout=cap, spelling=case.get("spelling", "int"), trail=case.get("trail", 0))
     return r, time.time() - t0
 
 
@@ -556,6 +556,9 @@ def run(st, tier, seed):
             # them with %lf, so these are the same consistent triple
             case["spelling"] = rng.choice(["point", "exp", "wide"])
             res.count("number-spelling:" + case["spelling"])
+        if rng.random() < 0.1 and "start" not in case:
+            case["trail"] = rng.randint(1, 3)       # the files also carry entries for 1-3 trailing blanks
+            res.count("trailing-blank-entries")
         if "spurious_range" in " ".join(opts) and int(" ".join(opts).split("spurious_range=")[1].split()[0]) >= 9:
             case["sanitize"] = True
         if t[0][0] == " " or "   " in t[0] or len(t[0]) <= 2:
